@@ -10,7 +10,7 @@ import copy
 
 from vlib import gen_doc
 
-ELE_KINDS = ['too_long', 'too_short', 'bad_code', 'bad_char', 'bad_date', 'bad_time', 'missing_required', 'notused_filled',
+ELE_KINDS = ['too_long', 'too_short', 'bad_code', 'bad_char', 'bad_date', 'bad_time', 'bad_qualified_datetime', 'missing_required', 'notused_filled',
              'too_many_elements', 'too_many_components', 'syntax']
 SEG_KINDS = ['unknown_segment', 'out_of_place', 'missing_segment', 'max_use', 'loop_repeat']
 ALL_KINDS = ELE_KINDS + SEG_KINDS
@@ -311,6 +311,34 @@ class _K(object):
         d = clone(doc)
         set_value(d.recs[i], ep, sp, v)
         return _mk(d, 'bad_time', i, ep, sp, ['9'], v)
+
+    @staticmethod
+    def bad_qualified_datetime(rng, doc):
+        """DTP03, whose format DTP02 announces (D8, RD8, DT = date + HHMM, TM): an impossible date or time of day in that format, a range
+        without hyphen, a date-time whose only fault is the time part (in and outside February)"""
+        sites = [i for i, r in enumerate(doc.recs) if is_body(r) and r.node.id == 'DTP' and len(r.vals) >= 3 and r.vals[1] in ('D8', 'RD8', 'DT', 'TM')
+                 and isinstance(r.vals[2], str) and r.vals[2] != '' and len(r.node.children) >= 3 and r.node.children[2].usage != 'N']
+        if not sites:
+            return None
+        # the rarer formats first: every format that occurs in the document is equally likely
+        # (a DTP whose DTP02 code list also allows another format may legitimately be switched to it: still one fault)
+        byq = {}
+        for i in sites:
+            allowed = set(doc.recs[i].node.children[1].codes or ()) & set(('D8', 'RD8', 'DT', 'TM'))
+            for q in allowed | set([doc.recs[i].vals[1]]):
+                byq.setdefault(q, []).append(i)
+        rare = [x for x in ('DT', 'TM') if x in byq]
+        q = rng.choice(rare) if (rare and rng.random() < 0.6) else rng.choice(sorted(byq))
+        i = rng.choice(byq[q])
+        v, codes = {'D8': (['20001301', '20010229', '20000431', '2000010'], ['8']),
+                    'RD8': (['20000101-20001301', '20010229-20010301', '20000101', '20000101-', '2000010120000102'], ['8']),
+                    'DT': (['200312132561', '200307049960', '200311302400', '200608150075', '200402292460', '200013011200'], ['8', '9']),
+                    'TM': (['2561', '0860', '9999', '24'], ['9'])}[q]
+        v = rng.choice(v)
+        d = clone(doc)
+        d.recs[i].vals[1] = q
+        d.recs[i].vals[2] = v
+        return _mk(d, 'bad_qualified_datetime', i, 3, None, codes, v, note='format:' + q)
 
     @staticmethod
     def missing_required(rng, doc):
